@@ -641,6 +641,7 @@ func c05fxExhaustive(j *c05fxJobs, all bool) {
 		{"t2"},                  // tcp service
 		{"i0.4.0.1", "i1.9.1.1"}, // re-declared unchanged, the other one with fewer slots
 		{"F"},                   // full resync, nothing changed
+		{"i1.9.2.1"},            // ONLY the other ingress, re-declared unchanged: Shrink drops its pair (seed C05f)
 	}
 	ns := []int{3, 0}
 	if all {
@@ -657,7 +658,7 @@ func c05fxExhaustive(j *c05fxJobs, all bool) {
 			}
 			for _, c1 := range changes {
 				for i2, c2 := range changes {
-					if !all && i2%2 == 1 && f != "bm" && f != "sh" {
+					if !all && i2%2 == 1 && i2 != len(changes)-1 && f != "bm" && f != "sh" {
 						continue
 					}
 					ops := []string{"i0.4.0.1", "i1.9.2.1", "t1", "u"}
